@@ -19,6 +19,13 @@ def main():
             if not f.endswith(".py"):
                 continue
             tree = ast.parse(open(os.path.join(root, f)).read())
+            for st in tree.body:            # module-level tables
+                if isinstance(st, ast.AnnAssign) and isinstance(st.target, ast.Name):
+                    names.add(st.target.id)
+                elif isinstance(st, ast.Assign):
+                    for t in st.targets:
+                        if isinstance(t, ast.Name):
+                            names.add(t.id)
             for n in ast.walk(tree):
                 if isinstance(n, ast.Attribute) and isinstance(n.ctx, ast.Store):
                     names.add(n.attr)
